@@ -52,6 +52,19 @@ type harnessProvider struct {
 	queue           []types.Log
 	forwarded       int
 	out             chan<- types.Log
+	subs            []ethereum.Subscription
+}
+
+// shutdown ends the log subscriptions (the proxy's event loop has no other way to stop and would keep the whole
+// simulated chain of this case alive for the rest of the process).
+func (p *harnessProvider) shutdown() {
+	p.mu.Lock()
+	subs := p.subs
+	p.subs = nil
+	p.mu.Unlock()
+	for _, s := range subs {
+		s.Unsubscribe()
+	}
 }
 
 func (p *harnessProvider) PendingCallContract(ctx context.Context, call ethereum.CallMsg) ([]byte, error) {
@@ -69,6 +82,7 @@ func (p *harnessProvider) SubscribeFilterLogs(ctx context.Context, q ethereum.Fi
 	}
 	p.mu.Lock()
 	p.out = ch
+	p.subs = append(p.subs, sub)
 	p.mu.Unlock()
 	go func() {
 		for {
@@ -213,6 +227,7 @@ func TestC07Contract(t *testing.T) {
 		pendingIsLatest := rapid.Bool().Draw(rt, "pendingIsLatest")
 		f := newChainFixture(rt, fee, min, pendingIsLatest)
 		defer f.backend.Close()
+		defer f.provider.shutdown()
 		feeOf := func(a *big.Int) *big.Int {
 			switch fee {
 			case "const":
